@@ -174,23 +174,7 @@ def run(ck, prog):
                or (t["f"].get("decl") or "").startswith(TS)]
         ck.ob("R01.6", "ctor:%s" % ctor, not bad, "%s consumes no input" % ctor,
               msg="%s touches the input before the first token is lexed (%s): the text before the first cursor() is lost" % (ctor, bad))
-    # the scanner is built over exactly the text that was handed in (no slice, trim or prefix strip on the way):
-    # syntax::parse -> Lexer::new -> Scanner::new, each argument being the caller's own parameter
-    from .. import prov as _prov
-    chain = (("syntax::parse", "syntax::lexer::Lexer::<'a>::new"),
-             ("syntax::lexer::Lexer::<'a>::new", "unscanny::Scanner::<'a>::new"))
-    for caller, callee in chain:
-        cb = prog.body(caller)
-        ck.anchor(cb is not None, caller + " not found")
-        sites = [(i, t) for i, t in cb.calls() if Body.callee(t) == callee]
-        ck.anchor(len(sites) >= 1, "%s no longer calls %s" % (caller, callee))
-        for i, t in sites:
-            o = _prov.origins(cb, t["args"][0])
-            ok = bool(o) and all(x[0] == "arg" and x[1] == 1 and not x[2] for x in o)
-            ck.ob("R01.6", "whole-text:%s" % caller.rsplit("::", 2)[-2 if caller.endswith("::new") else -1], ok,
-                  "%s passes its own text argument, unchanged, to %s" % (caller, callee.rsplit("::", 2)[-2]),
-                  msg="%s hands %s something other than the text it was given (%s): text that is cut off before lexing never "
-                      "reaches the tree and every range is shifted" % (caller, callee, sorted(map(str, o))[:3]))
+    whole_text(ck, prog, "R01.6")
     sub = _Sub(ck, "R01.6")
     c02.rule_r028(sub, prog)
 
@@ -212,3 +196,24 @@ class _Sub:
 
     def __getattr__(self, name):
         return getattr(self.ck, name)
+
+
+def whole_text(ck, prog, rule):
+    """shared with C17 (a tree built over a suffix of the text has every range shifted against the document)"""
+    # the scanner is built over exactly the text that was handed in (no slice, trim or prefix strip on the way):
+    # syntax::parse -> Lexer::new -> Scanner::new, each argument being the caller's own parameter
+    from .. import prov as _prov
+    chain = (("syntax::parse", "syntax::lexer::Lexer::<'a>::new"),
+             ("syntax::lexer::Lexer::<'a>::new", "unscanny::Scanner::<'a>::new"))
+    for caller, callee in chain:
+        cb = prog.body(caller)
+        ck.anchor(cb is not None, caller + " not found")
+        sites = [(i, t) for i, t in cb.calls() if Body.callee(t) == callee]
+        ck.anchor(len(sites) >= 1, "%s no longer calls %s" % (caller, callee))
+        for i, t in sites:
+            o = _prov.origins(cb, t["args"][0])
+            ok = bool(o) and all(x[0] == "arg" and x[1] == 1 and not x[2] for x in o)
+            ck.ob(rule, "whole-text:%s" % caller.rsplit("::", 2)[-2 if caller.endswith("::new") else -1], ok,
+                  "%s passes its own text argument, unchanged, to %s" % (caller, callee.rsplit("::", 2)[-2]),
+                  msg="%s hands %s something other than the text it was given (%s): text that is cut off before lexing never "
+                      "reaches the tree and every range is shifted" % (caller, callee, sorted(map(str, o))[:3]))
